@@ -46,6 +46,8 @@ type loopAct struct {
 	cands     []loopCand
 	variants  []variantCand
 	varGoals  [][]*Term // per variant candidate, per back edge
+	steps     []*LoopInv
+	stepHead  []map[string]Value
 	varHead   []*Term
 	frame     *Frame
 	invs      []*LoopInv
@@ -722,6 +724,10 @@ func (ex *Exec) loopHead(f *Frame, b *ssa.BasicBlock, lp *loopInfo, entry *Term)
 	for _, inv := range act.invs {
 		ex.assumeInv(f, act, inv, entry, getHead)
 	}
+	act.steps = ex.P.loopSteps[key]
+	for _, st := range act.steps {
+		act.stepHead = append(act.stepHead, ex.stepHeadArgs(f, act, st))
+	}
 	act.variants = ex.variantCandidates(f, act, phis)
 	act.varGoals = make([][]*Term, len(act.variants))
 	act.varHead = nil
@@ -762,6 +768,9 @@ func (ex *Exec) backEdge(f *Frame, b, h *ssa.BasicBlock, cond *Term) {
 	}
 	for _, inv := range act.invs {
 		ex.checkInv(f, act, inv, "inv-step", cond, getNext)
+	}
+	for i, st := range act.steps {
+		ex.checkStep(f, act, st, act.stepHead[i], cond, getNext)
 	}
 	for i, vc := range act.variants {
 		vh := act.varHead[i]
@@ -1377,7 +1386,7 @@ func (ex *Exec) binop(f *Frame, x *ssa.BinOp) Value {
 			return Wrap(MulC(pow2(uint(c)), at), ik)
 		}
 	case token.SHR:
-		if c, ok := bt.ConstInt(); ok && nonneg(at) {
+		if c, ok := bt.ConstInt(); ok && (nonneg(at) || !ik.signed) {
 			if uint(c) >= ik.bits {
 				return Int(0)
 			}
